@@ -132,6 +132,14 @@ def family(rng, quick):
         g = mk("s%d" % ti, [(ti, "P0")])
         if g:
             gs.append(g)
+    # a production that is left-recursive in itself (head), reached from the root ONLY through each placement in turn (the walk
+    # over the grammar has to get there whatever the root wraps the reference in)
+    head = [i for i in T if TEMPLATES[i][0] == "head"][0]
+    for ti in T:
+        if TEMPLATES[ti][1] is not None:
+            g = mk("r%d" % ti, [(ti, "P1"), (head, "P1")])
+            if g:
+                gs.append(g)
     # two productions: every pair of templates with the cross references
     pairs = [(a, ta, b, tb) for a in T for b in T for ta in ("P0", "P1") for tb in ("P0", "P1")]
     rng.shuffle(pairs)
